@@ -1,5 +1,6 @@
 import CobraModel.Lemmas.LP
 import CobraModel.Model.Reply
+import CobraModel.Lemmas.AuxProb
 /-!
 # C04 — FBA returns a true optimum, or a true verdict that none exists
 
@@ -85,5 +86,16 @@ def demoUnbounded : LP :=
   { n := 2, vb := [⟨some 0, some 4⟩, ⟨some 0, none⟩],
     rows := [([1, -1], ⟨none, some 3⟩)], obj := [1, 2] }
 example : demoUnbounded.checkUnbdd [0, 0] [0, 1] = true := by decide +kernel
+
+
+/-! ### FBA on the whole solver problem -/
+open AuxM in
+/-- **FBA**: any optimum of the solver problem of a model (`AuxM.Net.fba`, compared with the raw GLPK problem on every run) is, on net fluxes,
+an optimum of the objective over all steady-state, in-bounds flux vectors, in the model's direction, and the optimal value is the objective
+on those net fluxes -/
+theorem fba_problem_optimum (n : Net) (hp : n.Proper) (x : V → Rat) (h : n.fba.IsOpt x) :
+    n.Feasible (netOf x) ∧ n.fba.value x = n.objVal (netOf x) ∧
+    ∀ v, n.Feasible v → if n.dirMax then n.objVal v ≤ n.objVal (netOf x) else n.objVal (netOf x) ≤ n.objVal v :=
+  fba_optimum n hp x h
 
 end C04
